@@ -316,6 +316,29 @@ func (c *Ctx) ruleFinalGate() {
 							continue
 						}
 					}
+					// the count computed by a helper of the package: every value it returns is such a len
+					if cl, isCall := v.(*ssa.Call); isCall && cl.Call.StaticCallee() != nil && cl.Call.StaticCallee().Pkg == f.Pkg && len(cl.Call.StaticCallee().Blocks) > 0 {
+						allLens := true
+						nres := 0
+						for _, hr := range returnsOf(cl.Call.StaticCallee()) {
+							for _, hv := range phiInputs(stripConv(resultOf(hr, 0))) {
+								nres++
+								hl, isLen := lenOf(stripConv(hv))
+								if !isLen {
+									allLens = false
+									continue
+								}
+								if _, fv, ok := fieldLoad(hl); ok && fv != nil && strings.HasPrefix(fv.Type().Underlying().String(), "map[") {
+									lens[fv.Name()] = true
+								} else {
+									allLens = false
+								}
+							}
+						}
+						if allLens && nres > 0 {
+							continue
+						}
+					}
 					other = true
 				}
 			}
